@@ -20,11 +20,23 @@ if [ "$ID" = C19 ]; then BIN=out/bin/vchk-race.$TAG; BUILD+=(-race); fi
 if [ ! -x $BIN ] || [ -n "${ALT_REBUILD:-}" ]; then
   (cd harness && go build -modfile=go.alt.$TAG.mod "${BUILD[@]}" -o ../$BIN ./cmd/vchk) || { echo "BUILD-FAILURE $ID"; rm -f harness/go.alt.$TAG.*; exit 2; }
 fi
+case "$ID" in C05|C07|C08|C20)
+  if [ ! -x $BIN.386 ]; then
+    (cd harness && GOARCH=386 CGO_ENABLED=0 go build -modfile=go.alt.$TAG.mod -tags verif -o ../$BIN.386 ./cmd/vchk) || echo "386 build failed"
+  fi ;;
+esac
 rm -f harness/go.alt.$TAG.mod harness/go.alt.$TAG.sum
 COV=$ALT/cov.$ID; rm -rf $COV; mkdir -p $COV
 VERIF_ROOT=$ALT VERIF_RACE_LOG=$ALT/race.$ID GORACE="halt_on_error=0 exitcode=0 log_path=$ALT/race.$ID" GOCOVERDIR=$COV \
   timeout -s QUIT 1500 $BIN $ID $TIER > $ALT/$ID.log 2>&1
 rc=$?
 grep -E '^(VIOLATION|KNOWN-FINDING|SUMMARY|HARNESS-FAILURE)' $ALT/$ID.log | cut -c1-300 | head -5
+if [ -x $BIN.386 ]; then
+  mkdir -p $ALT/386/evidence $ALT/386/out; cp known_findings.json $ALT/386/
+  VERIF_ROOT=$ALT/386 timeout -s QUIT 1500 $BIN.386 $ID $TIER > $ALT/$ID.386.log 2>&1
+  rc386=$?
+  grep -E '^(VIOLATION|HARNESS-FAILURE)' $ALT/$ID.386.log | cut -c1-300 | head -5
+  [ $rc -eq 0 ] && rc=$rc386
+fi
 rm -rf $COV $ALT/race.$ID.*
 exit $rc
